@@ -13,7 +13,7 @@ Case kinds
         model (driver op `seq`) is the transformer machine instantiated with the table of RECORDED first
         results; it predicts `<args flag>:<digest of the first result>` for every call.
   {"kind": "hampel", "w", "ns", "k", "rb", "z"} HampelFilter on a Series: result and the caller's series
-        afterwards, against the Lean model of `_hampel_filter` (in-place algorithm)
+        afterwards (= the input: transform copies first), against the Lean model of `_hampel_filter`
   {"kind": "par", "order": [...], "tasks": [...], "n_jobs": k}   joblib.Parallel under an induced
         completion order against `Par.parallelMap`
   {"kind": "static"}  the source-level tie (harness/extract/c12_static.py); not sent to the model
@@ -45,14 +45,14 @@ OBLIGATIONS = [
     "SkVerif.C12.parallel_result_independent_of_completion_order",
     "SkVerif.C12.parallel_two_schedules_agree",
     "SkVerif.C12.completion_order_collection_depends_on_schedule",
-    "SkVerif.C12.args_preserved_partial",
-    "SkVerif.C12.hampel_mutates_caller_witness",
-    "SkVerif.C12.hampel_caller_after_is_result",
+    "SkVerif.C12.args_preserved",
+    "SkVerif.C12.hampel_caller_unchanged",
+    "SkVerif.C12.original_code_hampel_mutated_caller",
     "SkVerif.C12.replaces_index_keeps_data",
 ]
 TRUSTED = [
     "hand-written models: SkVerif/Model/Forecaster.lean (forecaster base classes), Model/C12Pure.lean (Machine, transformer machine, "
-    "Effect table of known in-place sites), Model/C12Parallel.lean (Parallel as slot-by-submission-index scheduler), Model/SeriesTransform.lean (`hampel`)",
+    "Effect table of in-place sites: EMPTY since fixes b0033b3 / c56874f / 6cfe0ff), Model/C12Parallel.lean (Parallel as slot-by-submission-index scheduler), Model/SeriesTransform.lean (`hampel`)",
     "for every estimator other than the naive/probe forecasters the model is the transformer machine instantiated with the table of "
     "RECORDED first results: what is checked is that the real object behaves as SOME pure function of (fitted state, arguments), not which one",
     "byte snapshots (values, dtype, index labels, index class, columns, nested cells) taken by the harness before/after each call",
@@ -82,9 +82,9 @@ LEVEL_TEXT = ("PARTIAL by nature. Lean 4 theorems over executable models: for th
               "twins under the threading backend, pickle round trip) and compared with the model's prediction that nothing changes; a static source walk ties "
               "random_state use, writes to self and ordered parallel collection.")
 LEVEL_NOTE = ("Trusted: Lean kernel; axioms propext/Classical.choice/Quot.sound; model faithfulness as exercised; harness snapshots + compat layer; CPython/joblib/pickle. "
-              "Known in-place sites (HampelFilter.transform, Imputer(method='random') on a DataFrame, statsmodels adapters' fit replacing the caller's Int64Index) are "
-              "modelled as Effects and reported as KNOWN-FINDING; args_preserved is proved only for the other sites (args_preserved_partial) with a machine-checked "
-              "negation at a Hampel witness. No theorem covers CPython, threads or pickle.")
+              "The in-place sites found by this check (HampelFilter.transform, Imputer(method=random|drift|forecaster) on a DataFrame, statsmodels adapters' fit replacing the "
+              "caller's Int64Index) were repaired in /repo (b0033b3, c56874f, 6cfe0ff): the model's table of in-place sites is empty, args_preserved is proved at full strength "
+              "for the model, and the original behaviour is kept only as a labelled historical theorem. No theorem covers CPython, threads or pickle.")
 TECHNIQUE = "Lean 4 proof (state-machine invariants, induction over interleavings and over schedules/permutations) + differential observation of the real code (argument snapshots, repeats, n_jobs twins, pickle) + static ast tie"
 
 WIDEN_ON_BREAK = False      # the estimator sweep is the same in both tiers; do not double it when the Lean side is broken
@@ -239,11 +239,6 @@ def to_3d(X):
 
 
 # =============================================================================== estimators
-class SlowNaive(object):
-    """placeholder; replaced by a real subclass of NaiveForecaster on first use (sktime must be imported
-    through the compat layer first)"""
-
-
 _SLOW = {}
 
 
@@ -466,7 +461,7 @@ def _train_data(c):
     start = c.get("start", 0)
     if fam == "fc":
         y = lambda: mk_series(seed, n, ik, start)
-        from sktime.forecasting.base import ForecastingHorizon
+
         def fh(a):
             return lambda: (list(FH_ARGS[a]),)
         args = {"A": fh("A")}
